@@ -280,8 +280,19 @@ impl Serialize for &[u16] {
     }
 }
 
+fn check_write_count(range: AddressRange, max: u16) -> Result<(), RequestError> {
+    if range.count > max {
+        return Err(crate::error::InvalidRequest::CountTooBigForType(range.count, max).into());
+    }
+    Ok(())
+}
+
 impl Serialize for WriteMultiple<bool> {
     fn serialize(&self, cursor: &mut WriteCursor) -> Result<(), RequestError> {
+        check_write_count(
+            self.range,
+            crate::constants::limits::MAX_WRITE_COILS_COUNT,
+        )?;
         self.range.serialize(cursor)?;
         self.values.as_slice().serialize(cursor)
     }
@@ -289,6 +300,10 @@ impl Serialize for WriteMultiple<bool> {
 
 impl Serialize for WriteMultiple<u16> {
     fn serialize(&self, cursor: &mut WriteCursor) -> Result<(), RequestError> {
+        check_write_count(
+            self.range,
+            crate::constants::limits::MAX_WRITE_REGISTERS_COUNT,
+        )?;
         self.range.serialize(cursor)?;
         self.values.as_slice().serialize(cursor)
     }
